@@ -4,6 +4,7 @@ import (
 	"context"
 	"encoding/json"
 	"fmt"
+	"io/fs"
 	"os"
 	"os/exec"
 	"path/filepath"
@@ -165,6 +166,10 @@ type OrderRun struct {
 	Now2     string `json:"now2,omitempty"`
 	Order    string `json:"order"` // "" canonical
 	Warmups  []Warm `json:"warmups,omitempty"`
+	// Relocate > 0: generate from a byte-identical copy of the project in ANOTHER directory whose files
+	// carry other (seeded, shuffled) modification times; GoMaxProcs != 0 overrides the driver's GOMAXPROCS
+	Relocate   uint64 `json:"relocate,omitempty"`
+	GoMaxProcs int    `json:"gomaxprocs,omitempty"`
 }
 
 type Artifacts struct {
@@ -182,8 +187,42 @@ func (o *ordersim) execRun(p *projgen.Project, r OrderRun) Artifacts {
 	return o.execRunEnv(p, r, nil)
 }
 
+// relocated returns a copy of the materialised project under another path with other mtimes.
+func (o *ordersim) relocated(p *projgen.Project, salt uint64) string {
+	src := o.materialise(p)
+	dst := filepath.Join(o.s.Dir, "proj-moved", fmt.Sprintf("m%d-%s", salt%1000, projHash(p)))
+	o.mu.Lock()
+	defer o.mu.Unlock()
+	if _, err := os.Stat(dst); err == nil {
+		return dst
+	}
+	os.MkdirAll(filepath.Dir(dst), 0o755)
+	if out, err := run("/", nil, "cp", "-r", src, dst); err != nil {
+		harnessFail("relocate: %v %s", err, out)
+	}
+	rng := projgen.Stream(salt, "mtimes", 0)
+	filepath.WalkDir(dst, func(path string, d fs.DirEntry, err error) error {
+		if err == nil && !d.IsDir() {
+			if strings.HasPrefix(filepath.Base(path), "cfg-") {
+				os.Remove(path) // per-run config files of other runs
+				return nil
+			}
+			t := time.Unix(1_600_000_000+int64(rng.Intn(200_000_000)), 0)
+			os.Chtimes(path, t, t)
+		}
+		return nil
+	})
+	return dst
+}
+
 func (o *ordersim) execRunEnv(p *projgen.Project, r OrderRun, extraEnv []string) Artifacts {
 	dir := o.materialise(p)
+	if r.Relocate != 0 {
+		dir = o.relocated(p, r.Relocate)
+	}
+	if r.GoMaxProcs != 0 {
+		extraEnv = append(append([]string{}, extraEnv...), fmt.Sprintf("GOMAXPROCS=%d", r.GoMaxProcs))
+	}
 	id := o.seq.Add(1)
 	outDir := filepath.Join(o.s.Dir, "out", fmt.Sprintf("%d", id))
 	os.MkdirAll(outDir, 0o755)
@@ -363,6 +402,12 @@ func (o *ordersim) drawRun(r *projgen.Rand, engines []string, allowWarm bool) Or
 		sites = projgen.Pick(r, o.s.siteIDs())
 	}
 	run.Order = fmt.Sprintf("%d:%s:%s", seed, mode, sites)
+	if r.Chance(1, 5) {
+		run.Relocate = 1 + r.U64()%997
+	}
+	if r.Chance(1, 4) {
+		run.GoMaxProcs = projgen.Pick(r, []int{1, 4, 8})
+	}
 	if allowWarm && r.Chance(3, 10) {
 		n := r.Range(1, 3)
 		for i := 0; i < n; i++ {
